@@ -311,6 +311,7 @@ func (r *Report) finish(out string, start time.Time, verbose bool) {
 	}
 	violations := 0
 	replays := 0
+	replayStart := time.Now()
 	repDir := filepath.Join(r.Verif, "replays", r.Prop)
 	for _, f := range r.failures {
 		violations++
@@ -329,7 +330,7 @@ func (r *Report) finish(out string, start time.Time, verbose bool) {
 			smt = r.p.buildQuery(o, 2)
 		}
 		suffix := " no-failing-input-found"
-		if replays < 12 {
+		if replays < 12 && time.Since(replayStart) < 90*time.Second {
 			rr := r.p.replayObligation(o, r.p.repo, r.Verif)
 			if rr.Attempted {
 				replays++
